@@ -8,7 +8,7 @@
 import json, os, shutil, subprocess, sys, glob, time
 
 ENV = dict(os.environ, GOFLAGS="-mod=mod", GOPROXY="off")
-SRC = "/tmp/mut/out"
+SRC = os.environ.get("MUT_SRC", "/tmp/mut/out")
 SEEDED = "/verif/seeded"
 WT = "/tmp/mutwt"
 FLAKY = ["TestCompositeRunner_Reload", "address already in use", "TestRunnerConfigUpdate_TOCTOU", "TestWorker_", "TestServerErr",
